@@ -28,20 +28,21 @@ def kBanned : Tabular.RIssue := ⟨"TEMPORAL_TAG_ERROR:TEMPORAL_TAG_NO_TIME".toL
 
 /-- `Tabular.validateClosed env kBanned cfg T`, or why the table is outside the closed fragment -/
 def runTable (env : Validate.Env) (kB : Tabular.RIssue) (cfg : Tabular.Cfg) (T : List Tabular.Row) : Json :=
-  match (HedVerif.Closed.consulted cfg T).find? (HedVerif.Closed.textUnmodelled env) with
-  | some t => jobj [("unmodelled", Json.str (if HedVerif.Closed.hasDelay t then "Delay group" else "string outside Validate")),
-                    ("text", jstr t)]
+  match HedVerif.Closed.skipReason env kB cfg T with
+  | some (why, t) => jobj [("unmodelled", Json.str why), ("text", jstr t)]
   | none =>
     let split := T.any (HedVerif.Closed.rowSplit env kB cfg)
-    if split && HedVerif.Closed.splitAmbiguous env kB cfg T then jobj [("unmodelled", Json.str "joined text of a split row is ambiguous")]
-    else if split && HedVerif.Closed.splitRaises env kB cfg T then jobj [("unmodelled", Json.str "string outside Validate")]
-    else
+    let cfg := HedVerif.Closed.closeCfg env kB cfg      -- the time points depend on the closed `items`
     -- no split row: `Tabular.validateClosed env kB cfg T` (= `validateClosedCells`, `C07.cells_eq_closed`); otherwise
     -- `Tabular.validateClosedCells env kB cfg T`; each string validated once (`Closed.memoTab_eq`)
     let o := if split then HedVerif.Closed.cellsOracle env kB cfg T else HedVerif.Closed.tabOracle env kB
     match Tabular.validate { cfg with o := HedVerif.Closed.memoTab o (HedVerif.Closed.consulted cfg T).eraseDups } T with
     | .error e => jobj [("exc", Json.str (C07.excName e))]
-    | .ok out => jobj [("split", jbool split), ("issues", jarr (out.map fun i =>
+    | .ok out =>
+      let labs := (Tabular.frame cfg T).map (·.1)
+      jobj [("split", jbool split),
+            ("parts", jarr ((HedVerif.Closed.timeParts env kB cfg T).map fun x => jarr [jint x.1, jnat (labs[x.2]?.getD 0)])),
+            ("issues", jarr (out.map fun i =>
         jarr [jstr i.kind, jnat i.sev, jopt jnat i.row, jopt jstr i.col, Json.str (C07.srcName i.src), jstr i.text]))]
 
 def tableJson (env : Validate.Env) (j : Json) : Except String Json := do
